@@ -19,6 +19,8 @@ MODFLAG=()
 if [ -n "${MUX_REPO:-}" ] && [ "$MUX_REPO" != "/repo" ]; then
   sed "s|=> /repo|=> $MUX_REPO|" go.mod > "$VERIF_DIR/work/go.alt.mod"; cp go.sum "$VERIF_DIR/work/go.alt.sum"
   MODFLAG=("-modfile=$VERIF_DIR/work/go.alt.mod")
+  # evidence/ describes runs against /repo itself; a run against anything else writes its evidence under work/
+  export VERIF_EVIDENCE_DIR="${VERIF_EVIDENCE_DIR:-$VERIF_DIR/work/evidence-alt}"
 fi
 
 build() { # $1 = output name, rest = extra flags
